@@ -4,9 +4,9 @@ LEVEL = "proof"
 
 def check(rep, tier):
     from contracts import core_make, tracer_trace, tracer_primitive, core_rules
-    core_make.run(rep, tier)
-    tracer_trace.run(rep, tier, only=("TR-result", "TR-start", "TR-exception"))
-    tracer_primitive.run(rep, tier, only=("W3", "W2"))
-    core_rules.run(rep, tier, parts=("defvjp",))
+    rep.run(core_make.run, rep, tier)
+    rep.run(tracer_trace.run, rep, tier, only=("TR-result", "TR-start", "TR-exception"))
+    rep.run(tracer_primitive.run, rep, tier, only=("W3", "W2"))
+    rep.run(core_rules.run, rep, tier, parts=("defvjp",))
     from contracts import programs_exact
-    programs_exact.run_zero(rep)
+    rep.run(programs_exact.run_zero, rep)
